@@ -3331,6 +3331,14 @@ def main():
     ap.add_argument('--setup', action='store_true')
     ap.add_argument('--replay')
     a = ap.parse_args()
+    # one check at a time per /verif: every check regenerates lean/Blf/Gen and rebuilds the driver in place, so two checks started
+    # side by side (e.g. a runner that fans the MANIFEST commands out) would overwrite each other's model.  The second one waits.
+    import fcntl
+    lockf = open(os.path.join(VERIF, 'lean', '.check.lock'), 'w')
+    t_lock = time.time()
+    fcntl.flock(lockf, fcntl.LOCK_EX)
+    if time.time() - t_lock > 1:
+        print('waited %.0fs for another check in this directory to finish' % (time.time() - t_lock))
     if a.setup:
         tr = lib.translate()
         print(tr['log'])
